@@ -349,14 +349,27 @@ def r2(ctx):
     mbm = [c for c in merges if "master_block" in u(c) or mb_p in u(c)]
     ok = (None if not mbm else (len(mbm) == 1 and ("None is %s" % mb_p, False) in guard_atoms(cfg, cfg.node_containing(mbm[0]))))
     ctx.ob(fc.qual, "master-block-merged-when-given", ok, fc.loc(mbm[0]) if mbm else fc.loc(), "the master block is merged into one component whenever it is given" if ok else "master block merge is not guarded by `master_block is not None`")
-    cd = util.single_def(fc.node, "components")
-    ok = cd is not None and isinstance(cd, ast.DictComp) and u(cd.generators[0].iter) == "phased_positions_set" and not cd.generators[0].ifs and u(cd.key) == u(cd.generators[0].target) and u(cd.value) == "component_finder.find(%s)" % u(cd.key)
-    rets = [n for n in walk_function(fc.node) if isinstance(n, ast.Return)]
-    ok = ok and len(rets) == 1 and u(rets[0].value) == "components"
+    # what is returned, whether it is bound to a local first or not
+    rets = [n for n in walk_function(fc.node) if isinstance(n, ast.Return) and n.value is not None]
+    cd = None
+    if len(rets) == 1:
+        cd = rets[0].value
+        if isinstance(cd, ast.Name):
+            cd = util.single_def(fc.node, cd.id)
+    pp = util.params_of(fc.node)[0]
+    ok = None
+    if isinstance(cd, ast.DictComp) and len(cd.generators) == 1:
+        it = u(util.expand_single_defs(fc.node, cd.generators[0].iter))
+        finders = {u(c_.func.value) for c_ in merges if isinstance(c_.func, ast.Attribute)}
+        ok = it in ("set(%s)" % pp, pp, "sorted(%s)" % pp, "frozenset(%s)" % pp, "sorted(set(%s))" % pp) and not cd.generators[0].ifs and u(cd.key) == u(cd.generators[0].target) and isinstance(cd.value, ast.Call) and isinstance(cd.value.func, ast.Attribute) and cd.value.func.attr == "find" and u(cd.value.func.value) in finders and [u(a_) for a_ in cd.value.args] == [u(cd.key)]
+    elif cd is not None and len(rets) == 1:
+        ok = None
+    elif len(rets) > 1:
+        ok = None
     ctx.ob(fc.qual, "every-phased-position-mapped-to-its-representative", ok, fc.loc(), "components maps every phased position to find(position)" if ok else "returned mapping is not {p: find(p) for every phased position}")
     # merges happen before the mapping is read
-    cn = cfg.node_of(util.stmt_of(cd)) if cd is not None else None
-    ok = cn is not None and all(cfg.find_path(cn, cfg.node_containing(c)) is None for c in merges)
+    cn = cfg.node_containing(cd) if isinstance(cd, ast.DictComp) else None
+    ok = (None if cn is None else all(cfg.find_path(cn, cfg.node_containing(c)) is None for c in merges))
     ctx.ob(fc.qual, "mapping-after-all-merges", ok, fc.loc(), "the mapping is computed after all merges" if ok else "a merge can happen after the mapping was computed")
 
 
@@ -390,11 +403,39 @@ def r3(ctx):
     mr = ctx.func(PH + ".merge_readsets")
     mcfg = ctx.cfg(mr)
     loops = [n for n in walk_function(mr.node) if isinstance(n, ast.For)]
-    ok = len(loops) == 2
-    if ok:
-        inner = loops[1] if loops[1] in list(ast.walk(loops[0])) else loops[0]
-        probs = util.check_loop_conservation(mcfg, inner, lambda n: mcfg.kind(n) == "stmt" and any(isinstance(c, ast.Call) and u(c.func) == "all_reads.add" and u(c.args[0]) == u(inner.target) for c in ast.walk(mcfg.ast(n))))
-        ok = not probs
+    rs_p = util.params_of(mr.node)[0]
+    adders = [n for n in loops if any(isinstance(c, ast.Call) and isinstance(c.func, ast.Attribute) and c.func.attr == "add" and c.args and u(c.args[0]) == u(n.target) for c in ast.walk(n))]
+    ok = None
+    if len(adders) == 1:
+        inner = adders[0]
+        outer = [n for n in loops if n is not inner and inner in list(ast.walk(n))]
+        vals = ("%s.values()" % rs_p,)
+        src = None  # does the innermost loop run over every read of every read set of the mapping?
+        it = u(inner.iter)
+        if not outer and it in ("chain.from_iterable(%s)" % vals[0], "itertools.chain.from_iterable(%s)" % vals[0], "chain(*%s)" % vals[0], "itertools.chain(*%s)" % vals[0]):
+            src = True
+        elif len(outer) == 1:
+            o = outer[0]
+            oi, ot = u(o.iter), o.target
+            if oi == "%s.items()" % rs_p and isinstance(ot, ast.Tuple) and len(ot.elts) == 2 and it == u(ot.elts[1]):
+                src = True
+            elif oi == vals[0] and it == u(ot):
+                src = True
+            elif oi in (rs_p, "%s.keys()" % rs_p, "sorted(%s)" % rs_p, "list(%s)" % rs_p) and it == "%s[%s]" % (rs_p, u(ot)):
+                src = True
+        if src:
+            probs = util.check_loop_conservation(mcfg, inner, lambda n: mcfg.kind(n) == "stmt" and any(isinstance(c, ast.Call) and isinstance(c.func, ast.Attribute) and c.func.attr == "add" and c.args and u(c.args[0]) == u(inner.target) for c in ast.walk(mcfg.ast(n))))
+            ok = not probs
+            if ok and outer:
+                ih = mcfg.node_of(inner)
+                ok = not util.check_loop_conservation(mcfg, outer[0], lambda n: n == ih)
+            adds = [c for c in ast.walk(inner) if isinstance(c, ast.Call) and isinstance(c.func, ast.Attribute) and c.func.attr == "add" and c.args and u(c.args[0]) == u(inner.target)]
+            rets = [n for n in walk_function(mr.node) if isinstance(n, ast.Return) and n.value is not None]
+            ok = ok and len(rets) == 1 and all(u(c.func.value) == u(rets[0].value) for c in adds)
+    elif len(adders) > 1:
+        ok = None
+    elif loops:
+        ok = False
     ctx.ob(mr.qual, "merge-keeps-every-read", ok, mr.loc(), "merge_readsets adds every read of every sample" if ok else "merge_readsets can drop a read")
     # positions the solver knows == positions components are computed for
     ap = [(s, v) for s, v in util.assignments_to(run.node, "accessible_positions") if isinstance(v, ast.AST)]
@@ -414,11 +455,13 @@ def r4(ctx):
     fparams = util.params_of(ctx.func(PH + ".find_components").node)
     mutated = {util.root_name(s_.target) for s_ in util.store_sites(oc.node) if s_.kind == "call"} | {"accessible_positions_set"}
     # containers created empty are filled later, possibly through an alias (a dict of target sets): they stand for themselves
+    created_empty = set()
     for n_ in walk_function(oc.node):
         if isinstance(n_, (ast.Assign, ast.AnnAssign)) and n_.value is not None:
             t_ = n_.targets[0] if isinstance(n_, ast.Assign) else n_.target
             if isinstance(t_, ast.Name) and u(n_.value) in ("set()", "dict()", "list()", "[]", "{}", "defaultdict(set)", "defaultdict(list)"):
                 mutated.add(t_.id)
+                created_empty.add(t_.id)
     trusted_forms = ("sorted(set(homozygous_positions).intersection(accessible_positions_set))", "sorted(accessible_positions_set.intersection(homozygous_positions))", "sorted(set(homozygous_positions) & accessible_positions_set)", "sorted(accessible_positions_set & set(homozygous_positions))")
     seen = {}
     for c in fcs:
@@ -429,6 +472,13 @@ def r4(ctx):
         marg = b.get(fparams[2])
         for ps in pathfx.summaries(cfg, dst=cfg.node_containing(c), opaque=tuple(x for x in mutated if x)):
             val = pathfx.subst(marg, ps.env) if marg is not None else ast.Constant(value=None)
+            # a name kept symbolic because it is filled in place on SOME path stands for its value on a path that binds it
+            # to a finished expression
+            lastb = {}
+            for e_ in ps.effects:
+                if e_[0] == "bind":
+                    lastb[e_[1].id] = e_[2]
+            val = pathfx.subst(val, {k_: v_ for k_, v_ in lastb.items() if k_ in created_empty and u(v_) not in ("set()", "dict()", "list()", "[]", "{}", "defaultdict(set)", "defaultdict(list)")})
             fam = ps.has("1 < len(family)", True) and ps.has("genetic_haplotyping", True)
             nofam = ps.has("1 < len(family)", False) or ps.has("genetic_haplotyping", False) or any((not p_) and "len(family)" in t_ and "genetic_haplotyping" in t_ for t_, p_ in ps.atoms)
             dis = True if ps.has("distrust_genotypes", True) else (False if ps.has("distrust_genotypes", False) else None)
